@@ -74,10 +74,19 @@ def one_reactor_call():
 # =====================================================================================
 #                                   eventual-send queue
 # programs:  op = ["turn"] | ["act", act];  act = ["enq", script] | ["flush", fid] | ["fire", id]
-#            script = [id, [act...], raises];  ["flush", fid, [script...]]: the Deferred's callback enqueues the scripts
+#            script = [id, [act...], raises];  ["flush", fid, [act...]]: the Deferred's callback performs the acts
+#            (eventually / fireEventually / flushEventualQueue again, with a callback of the same kind: any depth);
+#            old form, still read: a callback element that is a script [id, acts, raises] means ["enq", script]
 # events:    [1,id] submitted  [2,id] started  [3,id] raised  [4,id] exception left _turn
 #            [5,fid,pending,running] flush notification (pending = submitted but not started)
+#            [6,fid,deferred] flushEventualQueue() called; deferred = the Deferred had not fired when it was returned
+#            [7,fid] a deferred flush request is about to be notified (always followed by its [5,fid,..])
 # =====================================================================================
+def cb_acts(l):
+    """the actions of a flush callback; a bare script (old corpus form) stands for ["enq", script]"""
+    return [x if isinstance(x[0], str) else ["enq", x] for x in l]
+
+
 class EvRun:
     def __init__(self):
         self.q = fresh_queue()
@@ -90,8 +99,9 @@ class EvRun:
         self.turn_no = 0
         self.in_turn = False
         self.sub_turn = {}
-        self.flush_req = []
-        self.flush_fired = {}
+        self.flush_req = []     # fid of every request, by request number
+        self.flush_fired = {}   # request number -> times notified
+        self.flush_waiting = [] # request numbers of the deferred requests not notified yet, oldest first
         self.fire_vals = {}
         self.cbargs = {}
 
@@ -137,6 +147,10 @@ class EvRun:
         self.subs.append(i)
         self.sub_turn[i] = self.turn_no if self.in_turn else None
 
+    def escaped_from_submit(self, i, e):
+        self.trace.append([4, exc_id(e) if exc_id(e) != -1 else i])
+        self.bad("oracle/eventually-raised", "eventually()/fireEventually() for callable %d raised %r to its caller" % (i, e))
+
     def act(self, a):
         if a[0] == "enq":
             s = a[1]
@@ -144,8 +158,11 @@ class EvRun:
             self.cbargs[s[0]] = (tuple(xp), dict(xk))
             self.submit_mark(s[0])
             self.in_submit = s[0]
+            r = None
             try:
                 r = ev.eventually(self.make(s), *xp, **xk)
+            except BaseException as e:   # noqa -- an exception coming out of eventually() is an observation
+                self.escaped_from_submit(s[0], e)
             finally:
                 self.in_submit = None
             if r is not None:
@@ -154,10 +171,15 @@ class EvRun:
             i = a[1]
             self.submit_mark(i)
             self.in_submit = i
+            d = None
             try:
                 d = ev.fireEventually(("val", i))
+            except BaseException as e:   # noqa
+                self.escaped_from_submit(i, e)
             finally:
                 self.in_submit = None
+            if d is None:
+                return
             if d.called:
                 self.bad("oracle/ran-synchronously", "fireEventually's Deferred %d had fired when it was returned" % i)
 
@@ -168,16 +190,29 @@ class EvRun:
             d.addCallback(fired)
         elif a[0] == "flush":
             fid = a[1]
-            cbs = a[2] if len(a) > 2 else []
+            cbs = cb_acts(a[2]) if len(a) > 2 else []
+            rid = len(self.flush_req)
             self.flush_req.append(fid)
-            running = 1 if self.depth else 0
             d = ev.flushEventualQueue()
+            deferred = 0 if d.called else 1
+            self.trace.append([6, fid, deferred])
+            if deferred:
+                self.flush_waiting.append(rid)
 
-            def fl(v, fid=fid):
+            def fl(v, fid=fid, rid=rid, deferred=deferred):
                 pending = len(self.subs) - len(self.rans)
                 running = 1 if self.depth else 0
+                if deferred:
+                    self.trace.append([7, fid])
+                    if rid in self.flush_waiting:
+                        if self.flush_waiting[0] != rid:
+                            self.bad("oracle/flush-order", "deferred flush request %d was notified before the earlier deferred "
+                                     "request %d" % (fid, self.flush_req[self.flush_waiting[0]]))
+                        self.flush_waiting.remove(rid)
                 self.trace.append([5, fid, pending, running])
-                self.flush_fired[fid] = self.flush_fired.get(fid, 0) + 1
+                self.flush_fired[rid] = self.flush_fired.get(rid, 0) + 1
+                if self.flush_fired[rid] > 1:
+                    self.bad("oracle/flush-count", "flush request %d was notified %d times" % (fid, self.flush_fired[rid]))
                 if pending and running:
                     self.bad("oracle/flush-fires-while-batch-running",
                              "flush notification %d fired while a callable was running and %d submitted callables had not run" % (fid, pending))
@@ -188,8 +223,8 @@ class EvRun:
                     self.bad("oracle/flush-fires-inside-callable", "flush notification %d fired while a callable of the batch was still running" % fid)
                 if v is not None:
                     self.bad("oracle/flush-value", "flush fired with %r" % (v,))
-                for sc in cbs:           # the observer's callback enqueues more work
-                    self.act(["enq", sc])
+                for x in cbs:            # the observer's callback: more work, more flush requests (nested to any depth)
+                    self.act(x)
             d.addCallback(fl)
         else:
             raise ValueError(a)
@@ -225,9 +260,9 @@ class EvRun:
             self.bad("oracle/no-quiescence", "the queue did not drain in %d turns" % limit)
         if self.rans != self.subs and not any(s == "oracle/order" for s, _ in self.viol):
             self.bad("oracle/callable-lost", "after draining: submitted vs run: %s" % diffwin(self.subs, self.rans))
-        for fid in self.flush_req:
-            n = self.flush_fired.get(fid, 0)
-            if n != 1:
+        for rid, fid in enumerate(self.flush_req):
+            n = self.flush_fired.get(rid, 0)
+            if n != 1 and not (n > 1 and any(s == "oracle/flush-count" for s, _ in self.viol)):
                 self.bad("oracle/flush-count", "flush request %d was notified %d times after the queue drained" % (fid, n))
         if getattr(self.q, "_in_turn", False):
             self.bad("oracle/in-turn-stuck", "after draining, the queue still believes a batch is running (_in_turn is True): "
@@ -259,7 +294,7 @@ def coq_act(a):
         return "AEnq %s" % coq_script(a[1])
     if a[0] == "fire":
         return "AEnq (Sc %d [] RNo)" % a[1]
-    return "AFlush %d [%s]" % (a[1], "; ".join(coq_script(x) for x in (a[2] if len(a) > 2 else [])))
+    return "AFlush %d [%s]" % (a[1], "; ".join(coq_act(x) for x in cb_acts(a[2] if len(a) > 2 else [])))
 
 
 def coq_evprog(prog):
@@ -269,7 +304,8 @@ def coq_evprog(prog):
 # =====================================================================================
 #                                        promises
 # programs: ["new"] | ["send",p,mid,beh] | ["sendonly",p,mid,beh] | ["when",p,w,kind] | ["resolve",p,x] | ["turn"]
-#           beh = ["ret",v] | ["raise",f] | ["retp",q];  x = ["val",v] | ["fail",f] | ["prom",q]
+#           | ["fire",mid,x]   the program fires the Deferred that the method of message mid returns (beh ["retd"])
+#           beh = ["ret",v] | ["raise",f] | ["retp",q] | ["sendret",q,mid2,v] | ["retd"];  x = ["val",v] | ["fail",f] | ["prom",q]
 #           kind = "when" | "then" | "except"
 # events:   [1,p,mid] sent  [2,p,mid,v] method invoked on value v  [3,p,w,0,v]/[3,p,w,1,f] observer told
 #           [4,p] UsageError raised to the caller  [5,p] AttributeError raised to the caller
@@ -330,6 +366,13 @@ class PrRun:
         self.nrefused = 0
         self.nchained = 0
         self.extra = {}             # mid -> (positional extras, keyword extras) of the message
+        self.dfs = {}               # mid -> the Deferred the method of message mid returns (beh "retd")
+        self.fired = {}             # mid -> x   what the program fired that Deferred with
+
+    def deferred(self, mid):
+        if mid not in self.dfs:
+            self.dfs[mid] = defer.Deferred()
+        return self.dfs[mid]
 
     def bad(self, sig, text):
         self.viol.append((sig, text))
@@ -351,6 +394,9 @@ class PrRun:
         if beh[0] == "raise":
             self.returned[mid] = ("fail", beh[1])
             raise (BoomBase if beh[1] % 3 == 0 else Boom)(beh[1])
+        if beh[0] == "retd":             # the method returns a Deferred (already fired, or fired later by the program)
+            self.returned[mid] = ("deferred", mid)
+            return self.deferred(mid)
         if beh[0] == "sendret":          # the method sends another message (re-entrantly), then returns a value
             q, m2, v = beh[1], beh[2], beh[3]
             if q < len(self.P) and self.P[q] is not None:
@@ -377,6 +423,29 @@ class PrRun:
         if k == "new":
             p, r = pm.makePromise()
             self.P.append(p)
+            return
+        if k == "fire":
+            mid, x = o[1], o[2]
+            if x[0] == "val":
+                arg = Target(self, x[1])
+            elif x[0] == "fail":
+                arg = Failure(Boom(x[1]))
+            else:
+                if x[1] >= len(self.P) or self.P[x[1]] is None:
+                    return
+                arg = self.P[x[1]]
+            d = self.deferred(mid)
+            if d.called:
+                return
+            self.fired[mid] = x
+            self.in_op = True
+            try:
+                d.callback(arg)
+            except Exception as e:   # noqa
+                self.trace.append([6, 0])
+                self.bad("oracle/operation-raised", "firing the Deferred of message %d raised %s: %s" % (mid, type(e).__name__, str(e)[:200]))
+            finally:
+                self.in_op = False
             return
         p = o[1]
         if p >= len(self.P) or self.P[p] is None:
@@ -493,6 +562,10 @@ class PrRun:
             x = self.returned.get(mid)
             if x is None:
                 return ("undelivered",)
+            if x[0] == "deferred":       # the method returned a Deferred: the result follows what it was fired with
+                x = self.fired.get(mid)
+                if x is None:
+                    return None
         else:
             return None
         if x[0] == "val":
@@ -595,6 +668,8 @@ def filter_model_trace(flat, kinds):
 
 
 def coq_beh(b):
+    if b[0] == "retd":
+        return "BRetD"
     if b[0] == "sendret":
         return "BSendRet %d %d %d" % (b[1], b[2], b[3])
     return {"ret": "BRet %d", "raise": "BRaise %d", "retp": "BRetP %d"}[b[0]] % b[1]
@@ -613,7 +688,8 @@ def coq_prop(o):
     if k == "when":
         return "PWhen %d %d" % (o[1], o[2])
     x = o[2]
-    return "PResolve %d (%s)" % (o[1], {"val": "RVal %d", "fail": "RFail %d", "prom": "RProm %d"}[x[0]] % x[1])
+    return "%s %d (%s)" % ("PFire" if k == "fire" else "PResolve", o[1],
+                           {"val": "RVal %d", "fail": "RFail %d", "prom": "RProm %d"}[x[0]] % x[1])
 
 
 def coq_prprog(prog):
@@ -726,51 +802,67 @@ def observer_list_oracle(ctx):
 
 
 # =====================================================================================
-#   flush observers whose callbacks enqueue work (outside the model's alphabet: direct oracle only)
+#   flush observers whose callbacks enqueue work and / or call flush again: a direct oracle that does not go through
+#   EvRun (the same shapes are also in c17.ev_flushcb_family, where they are compared with the model)
 # =====================================================================================
 def flush_observer_oracle(ctx):
-    """k flush requests are outstanding when the queue drains; the callback of observer i enqueues a callable.
-    Every notification must still be delivered with nothing queued."""
+    """k flush requests are outstanding when the queue drains; the callback of observer `enq_by` enqueues a callable; the
+    callback of observer `again` calls flushEventualQueue() once more (before / after enqueueing, when it is the same
+    observer), and the callback of THAT request does so a second time.  Every notification must be delivered exactly once,
+    with nothing queued, the outstanding ones in request order."""
     import json
     for k in (2, 3):
         for enq_by in range(k):
-            for inside in (False, True):
-                q = fresh_queue()
-                log = []
-                ran = []
+            for again in [None] + list(range(k)):
+                for again_first in ((False, True) if again == enq_by else (False,)):
+                    for inside in (False, True):
+                        q = fresh_queue()
+                        log = []
+                        ran = []
 
-                def ask(i):
-                    d = ev.flushEventualQueue()
+                        def ask(i, level=0):
+                            d = ev.flushEventualQueue()
 
-                    def cb(_, i=i):
-                        log.append((i, len(q._events)))
-                        if i == enq_by:
-                            ev.eventually(lambda: ran.append("late"))
-                    d.addCallback(cb)
+                            def cb(_, i=i, level=level):
+                                log.append((i, len(q._events)))
+                                if level == 0 and i == again and again_first:
+                                    ask(k + i, 1)
+                                if level == 0 and i == enq_by:
+                                    ev.eventually(lambda: ran.append("late"))
+                                if level == 0 and i == again and not again_first:
+                                    ask(k + i, 1)
+                                if level == 1:
+                                    ask(2 * k + i, 2)
+                            d.addCallback(cb)
 
-                def first():
-                    ran.append("first")
-                    if inside:
-                        for i in range(k):
-                            ask(i)
-                ev.eventually(first)
-                if not inside:
-                    for i in range(k):
-                        ask(i)
-                for _ in range(20):
-                    if not one_reactor_call()[0]:
-                        break
-                cfg = dict(observers=k, enqueuing_observer=enq_by, requested_inside_callable=inside)
-                ctx.case(["flushobs", k, enq_by, inside], nontrivial=True)
-                bad = [(i, n) for i, n in log if n]
-                if sorted(i for i, _ in log) != list(range(k)) or ran != ["first", "late"]:
-                    ctx.fail("oracle/flush-observer-lost", "flush observers notified %r, callables run %r for %s" % (log, ran, json.dumps(cfg)),
-                             replay=dict(kind="flushobs", cfg=cfg, log=log))
-                elif bad:
-                    ctx.fail("oracle/flush-notified-after-earlier-observer-enqueued",
-                             "flush observer %d was notified while %d callable(s) queued by an earlier observer's callback had not "
-                             "run; %s" % (bad[0][0], bad[0][1], json.dumps(cfg)), replay=dict(kind="flushobs", cfg=cfg, log=log))
-
+                        def first():
+                            ran.append("first")
+                            if inside:
+                                for i in range(k):
+                                    ask(i)
+                        ev.eventually(first)
+                        if not inside:
+                            for i in range(k):
+                                ask(i)
+                        for _ in range(20):
+                            if not one_reactor_call()[0]:
+                                break
+                        cfg = dict(observers=k, enqueuing_observer=enq_by, requested_inside_callable=inside,
+                                   observer_calling_flush_again=again, flush_before_enqueue=again_first)
+                        ctx.case(["flushobs", k, enq_by, inside, again, again_first], nontrivial=True)
+                        bad = [(i, n) for i, n in log if n]
+                        want = list(range(k)) + ([k + again, 3 * k + again] if again is not None else [])
+                        outer = [i for i, _ in log if i < k]
+                        if sorted(i for i, _ in log) != sorted(want) or ran != ["first", "late"]:
+                            ctx.fail("oracle/flush-observer-lost", "flush observers notified %r (expected each of %r once), callables "
+                                     "run %r for %s" % (log, want, ran, json.dumps(cfg)), replay=dict(kind="flushobs", cfg=cfg, log=log))
+                        elif bad:
+                            ctx.fail("oracle/flush-notified-after-earlier-observer-enqueued",
+                                     "flush observer %d was notified while %d callable(s) queued by an earlier observer's callback had not "
+                                     "run; %s" % (bad[0][0], bad[0][1], json.dumps(cfg)), replay=dict(kind="flushobs", cfg=cfg, log=log))
+                        elif outer != list(range(k)):
+                            ctx.fail("oracle/flush-order", "outstanding flush observers were notified in the order %r; %s"
+                                     % (outer, json.dumps(cfg)), replay=dict(kind="flushobs", cfg=cfg, log=log))
 
 
 # =====================================================================================
